@@ -380,6 +380,17 @@ func runMqCase(c mqCase) (obs mqObs) {
 			mu.Unlock()
 			if !gated {
 				callsIdle(500 * time.Millisecond)
+			} else if e.Blk+e.Ext > 0 {
+				// the call must have reached the gate (its reservation parked in the allocator, or its build) before the script
+				// goes on, however slowly its goroutine gets scheduled
+				for t := time.Now(); time.Since(t) < 500*time.Millisecond; time.Sleep(100 * time.Microsecond) {
+					mu.Lock()
+					bp := len(builtGate.parked) > 0
+					mu.Unlock()
+					if len(al.parkedRel) > 0 || bp {
+						break
+					}
+				}
 			}
 			time.Sleep(300 * time.Microsecond)
 		case "sendok", "sendfail":
@@ -606,12 +617,11 @@ func runMqCase(c mqCase) (obs mqObs) {
 	cmu.Unlock()
 	time.Sleep(3 * time.Millisecond)
 	mu.Lock()
-	// attachments still queued when their queue has stopped must have been told as well
-	if live == 0 {
-		for k, m := range cur {
-			for r := range m {
-				expected[fmt.Sprintf("%d/%s", k.t, r)]++
-			}
+	// attachments still queued now must have been told as well: a stopped queue fails them, a live one has had every chance
+	// to send them during the run-out
+	for k, m := range cur {
+		for r := range m {
+			expected[fmt.Sprintf("%d/%s", k.t, r)]++
 		}
 	}
 	obs.Told = map[string][]string{}
